@@ -1,7 +1,10 @@
 //! vcheck <Cxx> [--tier quick|thorough] [--replay file]
 mod checks;
 mod rig;
+mod oracle;
 mod tapemodel;
+mod z80lock;
+mod z80prod;
 mod vcore;
 
 use vcore::{Ctx, Tier};
